@@ -310,6 +310,10 @@ def _last_defs(fi: FuncInfo, name: str, before: Optional[ast.AST] = None) -> Lis
                 for e, v in zip(t.elts, n.value.elts):
                     if isinstance(e, ast.Name) and e.id == name:
                         out.append(v)
+            elif isinstance(t, ast.Tuple) and isinstance(n.value, (ast.GeneratorExp, ast.ListComp)) and len(n.value.generators) == 1:
+                # a, b = (f(v) for v in (a, b)): every target gets the element expression
+                if any(isinstance(e, ast.Name) and e.id == name for e in t.elts):
+                    out.append(n.value.elt)
     return out
 
 
@@ -328,6 +332,12 @@ def _is_clamp(e: ast.AST, fn: str, fi: FuncInfo, depth: int = 0) -> Optional[ast
     """e is (or is a local last assigned from) a two-argument max()/min() call."""
     if isinstance(e, ast.Call) and call_name(e) == fn and len(e.args) == 2:
         return e
+    if isinstance(e, ast.Call) and call_name(e) in ("min", "max", "int", "clamp") and depth < 3:
+        # nested two-sided clamp  min(max(0, v), n)
+        for a in e.args:
+            r = _is_clamp(a, fn, fi, depth + 1)
+            if r is not None:
+                return r
     if isinstance(e, ast.Name) and depth < 2:
         ds = _last_defs(fi, e.id)
         if ds:
@@ -343,7 +353,7 @@ def rule_clamps(prog: Program) -> List[Instance]:
     targets = [
         ("roi:roi_pad/pad_slice", "both", "padded slice stays inside [0, n]"),
         ("roi:Tiles.__getitem__/_slice", "upper", "last tile is cut at the image size"),
-        ("geobox:GeoBox.overlap_roi", "both", "overlap region stays inside the first operand"),
+        ("geobox:GeoBox.overlap_roi", "twosided", "overlap region stays inside the first operand, also when the operands do not overlap"),
         ("roi:scaled_up_roi", "shape", "up-scaled region is clamped to the supplied shape"),
     ]
     for q, mode, what in targets:
@@ -363,6 +373,15 @@ def rule_clamps(prog: Program) -> List[Instance]:
             continue
         for k, (n, lo, hi) in enumerate(sb):
             sfx = f":{k}" if len(sb) > 1 else ""
+            if mode == "twosided":
+                # bounds come from an unbounded pixel-domain box: each end needs both clamps, or a
+                # box lying entirely outside yields a negative / reversed slice that numpy reads as non-empty
+                for nm_, b_ in (("start", lo), ("stop", hi)):
+                    c0, c1 = _is_clamp(b_, "max", f), _is_clamp(b_, "min", f)
+                    ok = c0 is not None and any(const_num(a) == 0 for a in c0.args) and c1 is not None and not any(const_num(a) is not None for a in c1.args)
+                    out.append(Instance("R-ROUND", f"{q}#clamp:{nm_}{sfx}", OK if ok else BAD,
+                                        f"{nm_} is clamped to [0, extent]: {what}" if ok else f"slice {nm_} `{short(b_)}` is not clamped on both sides (max(0, .) and min(extent, .)): for non-overlapping operands the slice is negative or reversed, which numpy does not read as empty", f.where(n)))
+                continue
             if mode == "both":
                 c = _is_clamp(lo, "max", f)
                 ok = c is not None and any(const_num(a) == 0 for a in c.args)
